@@ -175,6 +175,31 @@ def u_mesh(ctx):
     _case(ctx, _mk_mesh, _mesh_values, MESH_EDITS)
 
 
+def _mk_mesh_default_colours(ctx):
+    """colours never assigned; default face colours read once; then one vertex colour edited in place"""
+    import trimesh
+
+    V = [list(v) for v in TET_V]
+    V[3][2] = ctx.real("v", 5, 7)
+    m = trimesh.Trimesh(vertices=_as(ctx, V), faces=np.array(TET_F), process=False)
+    if ctx.choose_bool("face_colours_read"):
+        m.visual.face_colors
+    if ctx.choose_bool("vertex_colour_edited"):
+        m.visual.vertex_colors[2] = [9, 8, 7, 255]
+    else:
+        m.visual.face_colors[1] = [9, 8, 7, 255]
+    return m
+
+
+def _colour_values(m):
+    return {"kind": m.visual.kind, "vertex_colors": np.asarray(m.visual.vertex_colors).tolist(), "face_colors": np.asarray(m.visual.face_colors).tolist(), "vertices": m.vertices}
+
+
+def u_mesh_default_colours(ctx):
+    edits = [MESH_EDITS[0], ("vertex_colors[0] = 1", lambda m, x: m.visual.vertex_colors.__setitem__(0, [1, 2, 3, 4])), ("face_colors[0] = 1", lambda m, x: m.visual.face_colors.__setitem__(0, [1, 2, 3, 4]))]
+    _case(ctx, _mk_mesh_default_colours, _colour_values, edits, reads=lambda m: m.vertices)
+
+
 def u_mesh_cached(ctx):
     """copy(include_cache=True): the shallow-copied cache must not become a shared mutable"""
     meth = [("copy(include_cache=True)", lambda o: o.copy(include_cache=True))]
@@ -184,6 +209,14 @@ def u_mesh_cached(ctx):
         ("bounds[0] = x  (cached array, in place)", lambda m, x: _try_set(m.bounds, (0, 0), x)),
     ]
     _case(ctx, _mk_mesh, _mesh_values, edits, methods=meth)
+
+
+def _force_set(arr, idx, x):
+    try:
+        arr.flags.writeable = True
+        arr[idx] = x
+    except ValueError:
+        pass
 
 
 def _try_set(arr, idx, x):
@@ -316,7 +349,7 @@ def _mk_scene(ctx):
     T1 = np.eye(4, dtype=object)
     T1[1, 3] = ctx.real("ty", -3, 3)
     sc.add_geometry(m, node_name="n1", geom_name="g", transform=_as(ctx, T1))
-    sc.add_geometry(m, node_name="n2", geom_name="g", parent_node_name="n1", transform=_as(ctx, [[1, 0, 0, 5], [0, 1, 0, 0], [0, 0, 1, 0], [0, 0, 0, 1]]))
+    sc.add_geometry(m, node_name="n2", geom_name="g", parent_node_name="n1", transform=_as(ctx, [[1, 0, 0, 5], [0, 1, 0, 0], [0, 0, 1, 0], [0, 0, 0, 1]]), metadata={"tag": "orig", "nested": {"k": [1, 2]}})
     sc.metadata["nested"] = {"list": [1]}
     return sc
 
@@ -331,6 +364,7 @@ def _scene_values(sc):
         d["verts_" + k] = g.vertices
         d["colors_" + k] = np.asarray(g.visual.vertex_colors).tolist()
     d["bounds"] = sc.bounds
+    d["edge_metadata"] = {"%s>%s" % (a, b): dict(attr.get("metadata") or {}) for a, b, attr in sc.graph.to_edgelist()}
     return d
 
 
@@ -338,6 +372,9 @@ SCENE_EDITS = [
     ("geometry['g'].vertices[0,0] = x", lambda s, x: s.geometry["g"].vertices.__setitem__((0, 0), x)),
     ("graph.update(n1)", lambda s, x: s.graph.update(frame_to="n1", matrix=np.array([[1, 0, 0, 7], [0, 1, 0, 0], [0, 0, 1, 0], [0, 0, 0, 1.0]]))),
     ("graph edge matrix edited in place", lambda s, x: _try_set(s.graph.transforms.edge_data[("n1", "n2")]["matrix"], (2, 3), 3.0)),
+    ("edge metadata edited in place", lambda s, x: s.graph.transforms.edge_data[("n1", "n2")]["metadata"]["nested"]["k"].append(3)),
+    ("edge metadata key set in place", lambda s, x: s.graph.transforms.edge_data[("n1", "n2")]["metadata"].__setitem__("tag", "edited")),
+    ("edge matrix made writeable and edited in place", lambda s, x: _force_set(s.graph.transforms.edge_data[("n1", "n2")]["matrix"], (1, 3), 9.0)),
     ("delete_geometry", lambda s, x: s.delete_geometry("g")),
     ("add_geometry", lambda s, x: s.add_geometry(s.geometry["g"].copy(), node_name="n3", geom_name="g3")),
     ("apply_transform", lambda s, x: s.apply_transform(np.array([[1, 0, 0, 0], [0, 1, 0, 0], [0, 0, 1, 4], [0, 0, 0, 1.0]]))),
@@ -414,6 +451,7 @@ def units(tier):
     T = tier == "thorough"
     us = [
         Unit("mesh", u_mesh, key="mesh", functions=FUN, bounds="tetrahedron (one symbolic coordinate) with colours, attributes, nested metadata, density; 2 read states x 3 copy routes x 2 sides x 15 edit sites, written value symbolic", max_paths=400, wall_s=400),
+        Unit("mesh-default-colours", u_mesh_default_colours, key="mesh_colours", functions=FUN, bounds="mesh whose colours were never assigned: default face colours read or not, then a vertex or face colour edited in place; 3 routes x 2 sides x 3 edits", max_paths=300, wall_s=300),
         Unit("mesh-include_cache", u_mesh_cached, key="mesh_cached", functions=FUN, bounds="copy(include_cache=True); 2 x 2 x 11 edit sites incl. in-place writes to cached arrays", max_paths=200, wall_s=300),
     ]
     for kind in ("box", "sphere", "cylinder"):  # Capsule: the exact-arithmetic run of its mesh creation (trig/sqrt chains) does not finish: not claimed
@@ -421,7 +459,7 @@ def units(tier):
     us += [
         Unit("path2d", u_path, key="path", functions=FUN, bounds="Path2D of three line entities, one symbolic coordinate; 2 x 3 x 2 x 8 edit sites", max_paths=300, wall_s=300),
         Unit("pointcloud", u_cloud, key="pointcloud", functions=FUN, bounds="3-point cloud with colours; all routes/sides/5 edit sites", max_paths=200, wall_s=300),
-        Unit("scene", u_scene, key="scene", functions=FUN, bounds="scene world->n1->n2 instancing one mesh; 2 routes x 2 sides x 9 edit sites", max_paths=200, wall_s=400),
+        Unit("scene", u_scene, key="scene", functions=FUN, bounds="scene world->n1->n2 instancing one mesh; 2 routes x 2 sides x 12 edit sites", max_paths=200, wall_s=400),
         Unit("voxelgrid", u_voxel, key="voxel", functions=FUN, bounds="2x2x2 dense grid with symbolic offset; all routes/sides/4 edit sites", max_paths=200, wall_s=300),
         Unit("colorvisuals-vertex", u_visual, key="visual", functions=FUN, bounds="ColorVisuals (vertex colours) of a mesh; 2 routes x 2 sides x 3 edits", max_paths=100, wall_s=200),
         Unit("colorvisuals-face", u_visual, params={"face": True}, key="visual", functions=FUN, bounds="ColorVisuals (face colours) of a mesh; 2 routes x 2 sides x 3 edits", max_paths=100, wall_s=200),
